@@ -322,4 +322,56 @@ example (h x d : ℚ) (hx : |x| ≤ h) : x * d ≤ h * |d| := by
     _ = |x| * |d| := abs_mul _ _
     _ ≤ h * |d| := mul_le_mul_of_nonneg_right hx (abs_nonneg _)
 
+/-- **`contact_support_map_support_map` (2-D, EPA route) returns a self-consistent contact whose depth never exceeds the
+true overlap along `normal1`.**  For a unit rotation, whenever the function returns `Some(c)` after GJK reported
+`Intersection` on a 1-D / 2-D simplex of consistent CSO points:
+`dist = (pos12·point2 - point1)·normal1`, `normal2 = -normal1` in the frame of shape 1 (`pos12.rot normal2 = -normal1`),
+`normal1` is a unit vector (or the zero vector of the degenerate-edge finding), the witnesses are the `Epa2Out` combinations
+of support points, and `-dist ≤ H` for every bound `H` of `(x1 - x2)·normal1` over the two shapes. -/
+theorem contactFromEpa2_consistent (hs : LawfulSqrt sq) (pos12 : Iso2 K) (hu : pos12.re * pos12.re + pos12.im * pos12.im = 1)
+    (S1 S2 : V2 K → Prop) (supp1 supp2 : V2 K → V2 K)
+    (h1 : ∀ d, S1 (supp1 d)) (h2 : ∀ d, S2 (supp2 d)) (fuel : Nat) (simplex : List (CSOPoint2 K))
+    (hsim : ∀ v ∈ simplex, CsoOf S1 S2 v) (hlen : simplex.length = 2 ∨ simplex.length = 3) (c : Contact2 K)
+    (hr : letI := fieldNum K sq; contactFromEpa2 pos12 supp1 supp2 fuel simplex = some (some c)) :
+    letI := fieldNum K sq
+    Epa2Out sq S1 S2 c.point1 (pos12.act c.point2) c.normal1 ∧
+    c.dist = ((pos12.act c.point2).x - c.point1.x) * c.normal1.x + ((pos12.act c.point2).y - c.point1.y) * c.normal1.y ∧
+    (pos12.rot c.normal2).x = -c.normal1.x ∧ (pos12.rot c.normal2).y = -c.normal1.y ∧
+    (c.normal1 = ⟨0, 0⟩ ∨ c.normal1.x * c.normal1.x + c.normal1.y * c.normal1.y = 1) ∧
+    (∀ H : K, (∀ x1 x2 : V2 K, S1 x1 → S2 x2 → (x1.x - x2.x) * c.normal1.x + (x1.y - x2.y) * c.normal1.y ≤ H) →
+      -c.dist ≤ H) := by
+  letI := fieldNum K sq
+  unfold contactFromEpa2 at hr
+  split at hr
+  · rename_i p1 p2 n why hres
+    simp only [Option.some.injEq] at hr
+    have hout := epa2_result_spec sq S1 S2 supp1 supp2 h1 h2 fuel simplex hsim hlen p1 p2 n why hres
+    have hact : pos12.act (pos12.invAct p2) = p2 := by
+      simp only [Iso2.act, Iso2.invAct, Iso2.rot, Iso2.invRot, V2.add, V2.sub]
+      have e1 : pos12.re * (pos12.re * (p2.x - pos12.t.x) - -pos12.im * (p2.y - pos12.t.y)) -
+          pos12.im * (-pos12.im * (p2.x - pos12.t.x) + pos12.re * (p2.y - pos12.t.y)) + pos12.t.x = p2.x := by
+        linear_combination (p2.x - pos12.t.x) * hu
+      have e2 : pos12.im * (pos12.re * (p2.x - pos12.t.x) - -pos12.im * (p2.y - pos12.t.y)) +
+          pos12.re * (-pos12.im * (p2.x - pos12.t.x) + pos12.re * (p2.y - pos12.t.y)) + pos12.t.y = p2.y := by
+        linear_combination (p2.y - pos12.t.y) * hu
+      rw [e1, e2]
+    subst hr
+    simp only [hact]
+    refine ⟨hout, ?_, ?_, ?_, ?_, ?_⟩
+    · simp only [V2.sub, V2.dot]
+    · simp only [Iso2.rot, Iso2.invRot, V2.neg]; linear_combination (-n.x) * hu
+    · simp only [Iso2.rot, Iso2.invRot, V2.neg]; linear_combination (-n.y) * hu
+    · obtain ⟨a, b, t, _, _, _, _, _, hn⟩ := hout
+      rcases hn with h | ⟨_, h⟩
+      · exact Or.inr ((ccwFaceNormal2_spec sq hs a.point b.point).1 n h).2.1
+      · exact Or.inl h
+    · intro H hH
+      have := epa2_depth_le_overlap_along_normal sq hs S1 S2 p1 p2 n hout H hH
+      simp only [V2.sub, V2.dot]
+      linarith
+  · cases hr
+  · cases hr
+
+example : (3 / 5 : ℚ) * (3 / 5) + (4 / 5) * (4 / 5) = 1 := by norm_num
+
 end C02
